@@ -3,9 +3,11 @@
 package modsim
 
 import (
+	"bytes"
 	"encoding/json"
 	"fmt"
 	"math/rand/v2"
+	"os"
 	"time"
 
 	"github.com/safing/portbase/log"
@@ -28,6 +30,10 @@ func (H) Reset() {
 func (H) Generate(prop string, rng *rand.Rand, tier string) any {
 	switch prop {
 	case "C01":
+		if os.Getenv("VERIF_STAGE") == "also" {
+			// second stage of C01: modules with managed work ("completely stopped" includes the work of a module)
+			return genWork(rng, tier, "C01")
+		}
 		return genC01(rng, tier)
 	case "C05", "C06":
 		return genWork(rng, tier, prop)
@@ -42,6 +48,10 @@ func (H) Generate(prop string, rng *rand.Rand, tier string) any {
 func (H) Decode(prop string, raw json.RawMessage) (any, error) {
 	switch prop {
 	case "C01":
+		if bytes.Contains(raw, []byte(`"items"`)) {
+			p := &WorkPlan{}
+			return p, json.Unmarshal(raw, p)
+		}
 		p := &C01Plan{}
 		return p, json.Unmarshal(raw, p)
 	case "C05", "C06":
@@ -60,6 +70,10 @@ func (H) Decode(prop string, raw json.RawMessage) (any, error) {
 func (H) Execute(prop string, plan any, rc *simkit.RunCtx) {
 	switch prop {
 	case "C01":
+		if wp, ok := plan.(*WorkPlan); ok {
+			execWork(prop, wp, rc)
+			return
+		}
 		execC01(plan.(*C01Plan), rc)
 	case "C05", "C06":
 		execWork(prop, plan.(*WorkPlan), rc)
@@ -73,6 +87,10 @@ func (H) Execute(prop string, plan any, rc *simkit.RunCtx) {
 func (H) Check(prop string, plan any, rc *simkit.RunCtx) {
 	switch prop {
 	case "C01":
+		if wp, ok := plan.(*WorkPlan); ok {
+			checkWork(prop, wp, rc)
+			return
+		}
 		checkC01(plan.(*C01Plan), rc)
 	case "C05", "C06":
 		checkWork(prop, plan.(*WorkPlan), rc)
@@ -86,6 +104,9 @@ func (H) Check(prop string, plan any, rc *simkit.RunCtx) {
 func (H) Shrink(prop string, plan any) []any {
 	switch prop {
 	case "C01":
+		if wp, ok := plan.(*WorkPlan); ok {
+			return shrinkWork(wp)
+		}
 		return shrinkC01(plan.(*C01Plan))
 	case "C05", "C06":
 		return shrinkWork(plan.(*WorkPlan))
